@@ -479,6 +479,10 @@ class Parser:
                     e = Node("assign", op, e, rhs)
                 if self.at(";"):
                     self.eat()
+                    if e.op == "macro" and e.args and e.args[0] in ("debug_assert", "debug_assert_eq", "debug_assert_ne"):
+                        # no effect on release semantics; a failing one panics in the correspondence runs (the harness is
+                        # built with debug assertions on), so it is not part of what the translators render
+                        continue
                     stmts.append(Node("stmt", e))
                 elif e.op in ("if", "match", "block") and self.peek().kind != "eof":
                     stmts.append(Node("stmt", e))
